@@ -640,3 +640,574 @@ def note_known(ctx, prop_stream, cls, count, example):
     kid = f"{ctx.prop}-{cls}"
     if kid not in [k.get("id") for k in ctx.known_hits]:
         ctx.known_hits.append({"id": kid, "what": f"[{prop_stream}: {count} case(s), e.g. {example}] {KNOWN_CLASSES[cls]}"})
+
+
+# ------------------------------------------------------------------------------------------------
+# flag-carrying cluster primitives (hook level): delete_glyph, delete_glyphs_inplace, merge_clusters,
+# merge_out_clusters, replace_glyphs on buffers whose masks already carry glyph flags
+#
+# What the flag of a glyph means for C03: the flag on the first glyph of cluster c governs the boundary at the text
+# start of c.  When a primitive changes the cluster value of a glyph it therefore has to decide which flags the
+# renamed glyph carries (buffer.rs::set_cluster(info, cluster, mask): "if the cluster value changes, the DEFINED bits
+# are replaced by those of `mask`").  The contract checked (and proved for the model, Props/C03.lean):
+#   * delete_glyph / delete_glyphs_inplace, glyph alone in its cluster c, previous (kept) glyph has cluster p > c
+#     (descending buffer): the whole trailing run of p is renamed to c and carries exactly the deleted glyph's flags
+#     (the boundary at the start of c is still there and is now theirs);
+#   * the cluster survives in a neighbour, or p < c (ascending: the boundary at c disappears): nothing but the
+#     deletion happens;
+#   * every primitive: a glyph whose cluster value is unchanged keeps its whole mask; a glyph whose cluster value
+#     changes keeps every non-flag bit; a glyph renamed by merge_clusters / merge_out_clusters carries no flag
+#     (set_cluster(.., 0), as in HarfBuzz).
+
+CARRY_FLAG_VALUES = [0, 0, 1, 2, 3, 3, 3, 4, 5, 6, 7]
+
+
+def carry_walk(r, pc, pt):
+    """-> request line (flagwt).  In/out walks around `del` (+ merges, replacements) or one in-place `delin` /
+    `merge`, masks with flag bits, ascending / descending / unordered clusters, levels 0-2."""
+    n = r.range(2, 8)
+    mono = r.choice(["asc", "desc", "desc", "rand"])
+    fl = r.choice([0, pc, pc | pt])
+    st = bufgen.fresh_state(r, n, level=r.choice([0, 0, 1, 1, 2]), flags=fl, mono=mono, slack=r.below(2), maxlen=1000)
+    one_del = r.chance(1, 2)
+    kd = r.below(n)
+    items = []
+    for i, (g, m, c, a, b) in enumerate(st["I"]):
+        if i < n:
+            m |= r.choice(CARRY_FLAG_VALUES)
+            if one_del:
+                b = 1 if i == kd else 0
+        items.append((g, m, c, a, b))
+    st["I"] = items
+    st["sc"] = 0x20
+    ops = []
+    if r.chance(2, 3):
+        ops.append("clearout")
+        idx = out = 0
+        gid = 700
+        for _ in range(r.range(1, 7)):
+            rem = n - idx
+            cand = []
+            if rem > 0:
+                cand += ["next", "next", "del", "del", "del", "repl", "repls", "copy", "utbo"]
+            if rem > 1:
+                cand += ["merge", "nexts"]
+            if out > 1:
+                cand += ["mergeout"]
+            if not cand:
+                break
+            k = r.choice(cand)
+            if k == "next": ops.append("next"); idx += 1; out += 1
+            elif k == "nexts":
+                c = r.range(1, rem - 1); ops.append(f"nexts {c}"); idx += c; out += c
+            elif k == "del": ops.append("del"); idx += 1
+            elif k == "copy": ops.append("copy"); out += 1
+            elif k == "repl": gid += 1; ops.append(f"repl {gid}"); idx += 1; out += 1
+            elif k == "repls":
+                nin = r.range(1, min(3, rem)); no = r.range(0, 3)
+                gs = []
+                for _ in range(no):
+                    gid += 1; gs.append(str(gid))
+                ops.append(f"repls {nin} " + " ".join(gs)); idx += nin; out += no
+            elif k == "merge":
+                s = r.range(idx, n - 2); ops.append(f"merge {s} {r.range(s + 2, n)}")
+            elif k == "mergeout":
+                s = r.range(0, out - 2); ops.append(f"mergeout {s} {r.range(s + 2, out)}")
+            elif k == "utbo":
+                ops.append(f"utbo {r.range(0, out)} {r.range(idx, n)}")
+        ops.append("sync")
+    else:
+        for _ in range(r.range(0, 2)):
+            s = r.range(0, n - 2)
+            ops.append(f"{r.choice(['merge', 'merge', 'utb'])} {s} {r.range(s + 2, n)}")
+        ops.append("delin")
+    if r.chance(1, 2):
+        ops.append("propagate")
+    return "flagwt " + bufgen.state_str(st) + " ; " + " ; ".join(ops)
+
+
+def del_contract(O, cur, nxt):
+    """delete_glyph on (kept glyphs O, deleted glyph cur, following glyph nxt or None) -> (O', case).
+    O' is None in the forward-merge case (nothing kept yet), whose exact outcome is merge_clusters' business."""
+    c = cur[2]
+    if (nxt is not None and nxt[2] == c) or (O and O[-1][2] == c):
+        return list(O), "survives"
+    if O:
+        p = O[-1][2]
+        if c < p:
+            k = len(O)
+            while k > 0 and O[k - 1][2] == p:
+                k -= 1
+            return list(O[:k]) + [(g, (m & ~DEFINED) | (cur[1] & DEFINED), c, a, b) for (g, m, _, a, b) in O[k:]], "backward"
+        return list(O), "vanishes"
+    return None, "forward"
+
+
+def _frame(before, after, what, level=0):
+    """the set_cluster frame on two versions of one glyph array: same cluster -> same record; renamed -> every
+    non-flag bit kept.  At level 2 merge_clusters is unsafe_to_break: clusters stay, masks may gain BREAK|CONCAT."""
+    for i, (x, y) in enumerate(zip(before, after)):
+        if (x[0], x[3], x[4]) != (y[0], y[3], y[4]):
+            return f"{what}[{i}]: glyph/var fields changed {x} -> {y}"
+        if level == 2 and x[2] == y[2] and y[1] == x[1] | BREAK | CONCAT:
+            continue
+        if x[2] == y[2] and x[1] != y[1]:
+            return f"{what}[{i}]: cluster unchanged but mask {x[1]:#x} -> {y[1]:#x}"
+        if x[2] != y[2] and (x[1] & ~DEFINED) != (y[1] & ~DEFINED):
+            return f"{what}[{i}]: renamed glyph lost non-flag mask bits {x[1]:#x} -> {y[1]:#x}"
+    return None
+
+
+def carry_eval(ln, reply):
+    """oracle on the crate's trace of one carry walk -> (deviation or None, {case: count})"""
+    tr = bufgen.parse_trace(reply) if reply.startswith("ok r=") else None
+    if tr is None:
+        return f"crash {reply[:160]}", {}
+    rets, states = tr
+    ops = [x.strip() for x in ln.split(" ; ")[1:]]
+    prev = bufgen.parse_state(ln.split(" ; ")[0].split(" ", 1)[1])
+    seen = {}
+    for k, (op, st) in enumerate(zip(ops, states)):
+        name = op.split()[0]
+        if name == "del" and prev["ok"] == 1 and prev["i"] < prev["n"]:
+            O, R = bufgen.view(prev)
+            want, case = del_contract(O, R[0], R[1] if len(R) > 1 else None)
+            seen[f"del:{case}"] = seen.get(f"del:{case}", 0) + 1
+            O2, R2 = bufgen.view(st)
+            if want is not None:
+                if [tuple(x) for x in O2] != [tuple(x) for x in want] or list(R2) != list(R[1:]):
+                    return (f"step {k} delete_glyph ({case}): kept glyphs {O2} + {R2}, contract says {want} + {R[1:]} "
+                            f"(deleted glyph {R[0]})"), seen
+            else:
+                if len(O2) != 0 or len(R2) != len(R) - 1:
+                    return f"step {k} delete_glyph (forward): wrong lengths", seen
+                d = _frame(R[1:], R2, "in", prev["L"])
+                if d:
+                    return f"step {k} delete_glyph (forward): {d}", seen
+        elif name == "delin" and prev["ok"] == 1:
+            I = prev["I"][:prev["n"]]
+            dels = [i for i, x in enumerate(I) if x[4] == 1]
+            got = st["I"][:st["n"]]
+            if len(dels) == 1:
+                i = dels[0]
+                want, case = del_contract(I[:i], I[i], I[i + 1] if i + 1 < len(I) else None)
+                seen[f"delin:{case}"] = seen.get(f"delin:{case}", 0) + 1
+                if want is not None:
+                    if [tuple(x) for x in got] != [tuple(x) for x in want + I[i + 1:]]:
+                        return (f"step {k} delete_glyphs_inplace ({case}): result {got}, contract says {want + I[i + 1:]} "
+                                f"(deleted glyph {I[i]})"), seen
+                else:
+                    d = _frame(I[1:], got, "info", prev["L"]) if len(got) == len(I) - 1 else "wrong length"
+                    if d:
+                        return f"step {k} delete_glyphs_inplace (forward): {d}", seen
+            else:
+                seen["delin:multi"] = seen.get("delin:multi", 0) + 1
+                if len(got) != len(I) - len(dels):
+                    return f"step {k} delete_glyphs_inplace: {len(dels)} glyphs to delete, length {len(I)} -> {len(got)}", seen
+        elif name in ("merge", "mergeout") and prev["L"] != 2 and prev["ok"] == 1:
+            seen[name] = seen.get(name, 0) + 1
+            for arr in ("I", "U"):
+                d = _frame(prev[arr], st[arr], arr)
+                if d is None:
+                    # merges never hand flags on: a renamed glyph carries none
+                    for i, (x, y) in enumerate(zip(prev[arr], st[arr])):
+                        if x[2] != y[2] and y[1] & DEFINED:
+                            d = f"{arr}[{i}]: renamed by a merge but carries flags {y[1] & DEFINED:#x}"
+                            break
+                if d:
+                    return f"step {k} {op}: {d}", seen
+        prev = st
+    return None, seen
+
+
+# ------------------------------------------------------------------------------------------------
+# synthetic GSUB fonts for the two metamorphic experiments: contextual lookups (types 5 / 6, all formats, with
+# backtrack / lookahead) whose nested lookups substitute, multiply and DELETE glyphs (MultipleSubst with an empty
+# sequence), over a small alphabet so that random texts match often; shaped in all four directions, i.e. also with
+# the buffer reversed (descending clusters during GSUB).
+
+import fontbuild, gsubgen
+
+ALPHABETS = {
+    # name: (first code point, script the segment-property guess resolves to, the script's own horizontal direction)
+    "latin": (0x61, "Latn", "l"),
+    "hebrew": (0x5D0, "Hebr", "r"),
+    "pua": (0xE000, None, "l"),
+}
+SYNTH_TAGS = ["ccmp", "ccmp", "locl", "rlig", "liga", "calt", "clig"]
+
+
+class SynthCase:
+    """stands in for a corpus case (same attributes)"""
+    __slots__ = ("name", "font", "index", "text", "dir", "script", "lang", "flags", "level", "feats", "pre", "post",
+                 "extra", "opts")
+
+
+def _letters_cov(r, k, kmin=1, kmax=3):
+    return sorted(set(r.sample(list(range(1, k + 1)), r.range(kmin, min(kmax, k)))))
+
+
+def _deleting(lk):
+    """can this leaf lookup delete a glyph (MultipleSubst with an empty sequence)?"""
+    return lk["type"] == 2 and any(len(q) == 0 for st in lk["subtables"] for q in st["sequences"])
+
+
+def _rules_of(st):
+    """all nested-lookup record lists of one contextual subtable"""
+    if st.get("format") == 3:
+        return [st["lookups"]]
+    out = []
+    for rs in st.get("rulesets") or st.get("classsets") or []:
+        for ru in rs or []:
+            out.append(ru["lookups"])
+    return out
+
+
+def _tame_records(recs, lookups):
+    """profile `core`: at most one deleting record per rule and nothing after it (see class nested-delete-drift)"""
+    keep, dele = [], None
+    for (si, li) in recs:
+        if _deleting(lookups[li]):
+            dele = dele or (si, li)
+        else:
+            keep.append((si, li))
+    return keep + ([dele] if dele else [])
+
+
+def synth_recipe(r, profile="core"):
+    """a fontbuild recipe: k letters (glyphs 1..k, in the cmap), a few extra glyphs that only substitutions produce;
+    leaf lookups (deletion always among them) that are reached through contextual lookups and, sometimes, directly.
+    profiles: `core` — sequences of at most one glyph, a deleting record is the last record of its rule;
+    `multi` — sequences of up to three glyphs; `drift` — any record order; `lig` — ligature leaves as well;
+    `rev` — `core` plus a ReverseChainSingleSubst lookup."""
+    alpha = r.choice(sorted(ALPHABETS))
+    first = ALPHABETS[alpha][0]
+    k = r.range(3, 6)
+    n = 1 + k + r.range(1, 3)
+    rec = {"num_glyphs": n, "cmap": {first + g - 1: g for g in range(1, k + 1)},
+           "advances": [400 + 37 * g for g in range(n)]}
+    if r.chance(1, 3):
+        # GDEF classes so that lookup flags (IgnoreMarks / IgnoreBaseGlyphs) skip glyphs inside a match
+        rec["gdef"] = {"classes": {g: r.choice([1, 1, 3, 2]) for g in range(1, n) if r.chance(2, 3)}}
+    maxseq = 3 if profile in ("multi", "lig") else 1
+    leaf_kinds = ["del"] + [r.choice(["del", "single", "multi", "multi", "lig" if profile == "lig" else "single"])
+                            for _ in range(r.range(0, 3))]
+    lookups = []
+    for kind in leaf_kinds:
+        cov = _letters_cov(r, k)
+        if kind == "del":
+            st = {"coverage": cov, "sequences": [[] if r.chance(3, 4) else [r.range(1, n - 1)] for _ in cov]}
+            lookups.append({"type": 2, "flag": 0, "subtables": [st]})
+        elif kind == "single":
+            lookups.append({"type": 1, "flag": 0, "subtables": [{"format": 2, "coverage": cov,
+                                                                 "subst": [r.range(1, n - 1) for _ in cov]}]})
+        elif kind == "multi":
+            st = {"coverage": cov, "sequences": [[r.range(1, n - 1) for _ in range(r.range(0, maxseq))] for _ in cov]}
+            lookups.append({"type": 2, "flag": 0, "subtables": [st]})
+        else:
+            sets = [[{"components": [r.range(1, k) for _ in range(r.range(1, 2))], "glyph": r.range(1, n - 1)}] for _ in cov]
+            lookups.append({"type": 4, "flag": 0, "subtables": [{"coverage": cov, "ligsets": sets}]})
+    nleaf = len(lookups)
+    classdefs = [{g: r.range(1, 2) for g in range(1, k + 1) if r.chance(2, 3)} for _ in range(2)] + [{}]
+    top = []
+    for _ in range(r.range(1, 3)):
+        t = r.choice([5, 6, 6, 6])
+        sub = None
+        if r.chance(1, 2):
+            # format 3 with coverages over the letters: the common shape of real fonts' contextual rules
+            inp = [_letters_cov(r, k) for _ in range(r.range(1, 3))]
+            recs = [(r.below(len(inp)), r.below(nleaf)) for _ in range(r.range(1, 2))]
+            if t == 5:
+                sub = {"format": 3, "coverages": inp, "lookups": recs}
+            else:
+                sub = {"format": 3, "backtrack": [_letters_cov(r, k, 1, 4) for _ in range(r.range(0, 2))], "coverages": inp,
+                       "lookahead": [_letters_cov(r, k, 1, 4) for _ in range(r.range(0, 2))], "lookups": recs}
+        else:
+            sub = gsubgen.rand_subtable(r, t, k + 1, nleaf, None, classdefs)
+        if profile != "drift":
+            if sub.get("format") == 3:
+                sub["lookups"] = _tame_records(sub["lookups"], lookups)
+            else:
+                for rs in sub.get("rulesets") or sub.get("classsets") or []:
+                    for ru in rs or []:
+                        ru["lookups"] = _tame_records(ru["lookups"], lookups)
+        flag = r.choice([0, 0, 0, 8, 2]) if "gdef" in rec else 0
+        top.append(len(lookups))
+        lookups.append({"type": t, "flag": flag, "subtables": [sub]})
+    if r.chance(1, 3):
+        top.append(r.below(nleaf))          # a leaf also runs on its own, after / before the contextual lookups
+    if profile == "rev":
+        # ReverseChainSingleSubst can only be a top-level lookup ("no chaining to this type")
+        cov = _letters_cov(r, k)
+        top.append(len(lookups))
+        lookups.append({"type": 8, "flag": 0, "subtables": [{
+            "coverage": cov, "backtrack": [_letters_cov(r, k, 1, 4) for _ in range(r.range(0, 2))],
+            "lookahead": [_letters_cov(r, k, 1, 4) for _ in range(r.range(0, 2))],
+            "subst": [r.range(1, n - 1) for _ in cov]}]})
+    feats = []
+    order = r.shuffle(top)
+    tags = r.sample(sorted(set(SYNTH_TAGS)), r.range(1, 2))
+    for j, t in enumerate(tags):
+        mine = [x for i, x in enumerate(order) if i % len(tags) == j]
+        if mine:
+            feats.append({"tag": t, "lookups": mine})
+    rec["gsub"] = {"features": feats, "lookups": lookups}
+    return rec, alpha, k
+
+
+def recipe_traits(rec):
+    """what a synthetic font can do that matters for the documented finding classes"""
+    lk = rec["gsub"]["lookups"]
+    tr = {"has_lig": any(l["type"] == 4 for l in lk), "has_reverse": any(l["type"] == 8 for l in lk),
+          "has_seq2": any(l["type"] == 2 and any(len(q) > 1 for st in l["subtables"] for q in st["sequences"]) for l in lk),
+          "has_drift": False}
+    for l in lk:
+        if l["type"] in (5, 6):
+            for st in l["subtables"]:
+                for recs in _rules_of(st):
+                    for j, (si, li) in enumerate(recs):
+                        if li < len(lk) and lk[li]["type"] == 2 and _deleting(lk[li]) and j + 1 < len(recs):
+                            tr["has_drift"] = True
+    return tr
+
+
+SYNTH_PROFILES = ["core", "core", "core", "core", "core", "multi", "drift", "lig", "core", "rev"]
+
+
+def synth_groups(r, count, prefix="S"):
+    """font groups (same shape as FontSet.groups) of synthetic fonts, 6 in 10 of profile `core`"""
+    groups = []
+    i = 0
+    while len(groups) < count:
+        profile = SYNTH_PROFILES[i % len(SYNTH_PROFILES)]
+        i += 1
+        rec, alpha, k = synth_recipe(r, profile)
+        try:
+            hx = fontbuild.hexfont(rec)
+        except fontbuild.FontBuildError:
+            continue
+        first, script, native = ALPHABETS[alpha]
+        fid = f"{prefix}{len(groups)}"
+        c = SynthCase()
+        c.name, c.font, c.index, c.text = fid, f"synthetic:{fid}", 0, ""
+        c.dir, c.script, c.lang, c.flags, c.level, c.feats = None, script, None, 0, 0, []
+        c.pre, c.post, c.extra, c.opts = "", "", [], ""
+        alphabet = [chr(first + j) for j in range(k)]
+        g = {"fid": fid, "reg": f"font {fid} {hx}", "cases": [c], "alphabet": alphabet, "aat": False,
+             "synthetic": True, "profile": profile, "recipe": rec}
+        g.update(recipe_traits(rec))
+        groups.append(g)
+    return groups + witness_groups(prefix + "w")
+
+
+_ABC = {0x61: 1, 0x62: 2, 0x63: 3}
+WITNESS_FONTS = {
+    # class: (recipe, text) — smallest inputs of the finding classes above, shaped left to right (the script's own direction)
+    "deleted-flag-carrier": ({"num_glyphs": 7, "cmap": _ABC, "gsub": {"features": [{"tag": "ccmp", "lookups": [1, 2]}], "lookups": [
+        {"type": 2, "flag": 0, "subtables": [{"coverage": [4], "sequences": [[]]}]},                       # delete x
+        {"type": 2, "flag": 0, "subtables": [{"coverage": [1], "sequences": [[4, 5]]}]},                   # a -> x y
+        {"type": 6, "flag": 0, "subtables": [{"format": 3, "backtrack": [[3]], "coverages": [[4]], "lookahead": [],
+                                              "lookups": [(0, 0)]}]}]}}, "ca"),                              # c x| -> delete x
+    "nested-delete-drift": ({"num_glyphs": 7, "cmap": _ABC, "gsub": {"features": [{"tag": "ccmp", "lookups": [2]}], "lookups": [
+        {"type": 2, "flag": 0, "subtables": [{"coverage": [2], "sequences": [[]]}]},                       # delete b
+        {"type": 1, "flag": 0, "subtables": [{"format": 2, "coverage": [3], "subst": [6]}]},               # c -> z
+        {"type": 5, "flag": 0, "subtables": [{"format": 3, "coverages": [[1], [2]], "lookups": [(1, 0), (1, 1)]}]}]}}, "abc"),
+    # repaired (fix: ReverseChainSingleSubst ... backtrack does not match): kept as a regression witness, class None
+    "reverse-chain-concat": ({"num_glyphs": 7, "cmap": _ABC, "gsub": {"features": [{"tag": "ccmp", "lookups": [0]}], "lookups": [
+        {"type": 8, "flag": 0, "subtables": [{"coverage": [3], "backtrack": [[1]], "lookahead": [], "subst": [6]}]}]}}, "abc"),
+}
+
+
+def witness_groups(prefix="W"):
+    groups = []
+    for cls, (rec, text) in sorted(WITNESS_FONTS.items()):
+        fid = f"{prefix}{len(groups)}"
+        c = SynthCase()
+        c.name, c.font, c.index, c.text = fid, f"synthetic:{fid}", 0, ""
+        c.dir, c.script, c.lang, c.flags, c.level, c.feats = None, "Latn", None, 0, 0, []
+        c.pre, c.post, c.extra, c.opts = "", "", [], ""
+        g = {"fid": fid, "reg": f"font {fid} {fontbuild.hexfont(rec)}", "cases": [c], "alphabet": list("abc"), "aat": False,
+             "synthetic": True, "profile": "witness:" + cls, "recipe": rec, "witness_text": text}
+        g.update(recipe_traits(rec))
+        groups.append(g)
+    return groups
+
+
+def make_synth_shaping(r, g, flags, dirs=("l", "r", "t", "b"), levels=(0, 1)):
+    s = Shaping()
+    s.g = g
+    s.case = g["cases"][0]
+    s.text = "".join(r.choice(g["alphabet"]) for _ in range(r.range(2, 9)))
+    s.clusters = rand_clusters(r, len(s.text), False)
+    s.req_dir = r.choice(dirs)
+    if "witness_text" in g:
+        s.text, s.req_dir = g["witness_text"], "l"
+        s.clusters = list(range(len(s.text)))
+    s.dir = s.req_dir
+    s.script = s.case.script
+    s.flags = flags | r.choice([0, 3, 3, 3])
+    s.level = r.choice(levels)
+    s.extra = []
+    s.pre, s.post = "", ""
+    s.subset = None
+    s.line = None
+    return s
+
+
+KNOWN_CLASSES["deleted-flag-carrier"] = (
+    "delete_glyph / delete_glyphs_inplace, branch `Cluster survives; do nothing` (buffer.rs, same in HarfBuzz hb-buffer.cc): when the "
+    "deleted glyph shares its cluster with a neighbour, its glyph flags are dropped although the cluster lives on.  A MultipleSubst "
+    "that made a cluster of several glyphs, a contextual match that covers (and flags) only some of them, and the deletion of exactly "
+    "those leaves the rest of the cluster unflagged (propagate_flags can no longer see the flag)")
+KNOWN_CLASSES["nested-delete-drift"] = (
+    "apply_lookup (ot_layout_gsubgpos.rs, the TODO copied from HarfBuzz: `if buffer length was decreased by n, we assume n match "
+    "positions after the current one were removed`): after a nested MultipleSubst deleted the glyph at the LAST match position, the "
+    "position still counts as part of the match and now addresses the glyph after the match; a later record of the same rule "
+    "substitutes / deletes that glyph, which lies outside the span flagged by unsafe_to_break / unsafe_to_concat")
+
+
+def synth_known_class(s, kind="break"):
+    """synthetic fonts have no marks, digits, variation selectors and no reordering shaper.  Documented classes they can
+    fall into, decided from the recipe alone (over-approximation; fonts of profile `core` are in none of them):
+    ligatures under a reversed buffer (class `reversed`), multi-glyph sequences + deletion, records after a deleting record"""
+    g = s.g
+    if g.get("has_drift"):
+        return "nested-delete-drift"
+    if g.get("has_seq2"):
+        return "deleted-flag-carrier"
+    if shaped_reversed(s) and g.get("has_lig"):
+        return "reversed"
+    return None
+
+
+# ------------------------------------------------------------------------------------------------
+# U+2044 FRACTION SLASH: ot_shape.rs::setup_masks_fraction turns <digits> U+2044 <digits> into numerator / fraction /
+# denominator feature ranges.  Whether a digit is shaped as part of a fraction depends on what stands on the other
+# side of the slash, so the boundaries around a slash with digits on at most one side, and the outer ends of a full
+# fraction, are places where re-joining text changes the result.
+
+FRACTION_SLASH = 0x2044
+
+
+def fraction_recipe(r):
+    """synthetic font with fraction features: glyphs = 5 digits, slash, 3 letters, then numerator / denominator / `frac`
+    forms of the digits and a fraction bar.  Which of frac / numr / dnom exist varies (the plan needs frac, or numr+dnom)"""
+    alpha = r.choice(["latin", "hebrew"])
+    first = ALPHABETS[alpha][0]
+    digits = list(range(0x30, 0x35))
+    cmap = {cp: 1 + j for j, cp in enumerate(digits)}
+    cmap[FRACTION_SLASH] = 6
+    cmap[0x20] = 7
+    letters = [first + j for j in range(3)]
+    for j, cp in enumerate(letters):
+        cmap[cp] = 8 + j
+    n = 11 + 16
+    numr = {g: 11 + g - 1 for g in range(1, 6)}
+    dnom = {g: 16 + g - 1 for g in range(1, 6)}
+    fr = {g: 21 + g - 1 for g in range(1, 6)}
+    fr[6] = 26
+    which = r.choice([("frac", "numr", "dnom"), ("numr", "dnom"), ("frac",), ("frac", "numr", "dnom")])
+    lookups, feats = [], []
+    for tag, m in (("frac", fr), ("numr", numr), ("dnom", dnom)):
+        if tag in which:
+            feats.append({"tag": tag, "lookups": [len(lookups)]})
+            lookups.append({"type": 1, "flag": 0, "subtables": [{"format": 2, "coverage": sorted(m), "subst": [m[g] for g in sorted(m)]}]})
+    rec = {"num_glyphs": n, "cmap": cmap, "advances": [300 + 11 * g for g in range(n)],
+           "gsub": {"features": feats, "lookups": lookups}}
+    return rec, alpha, digits, letters
+
+
+def fraction_groups(r, count, prefix="Q", shim=None):
+    """synthetic fraction fonts + every font under tests/fonts that names a fraction feature"""
+    groups = []
+    for i in range(count):
+        rec, alpha, digits, letters = fraction_recipe(r)
+        fid = f"{prefix}{i}"
+        c = SynthCase()
+        c.name, c.font, c.index, c.text = fid, f"synthetic:{fid}", 0, ""
+        c.dir, c.script, c.lang, c.flags, c.level, c.feats = None, ALPHABETS[alpha][1], None, 0, 0, []
+        c.pre, c.post, c.extra, c.opts = "", "", [], ""
+        groups.append({"fid": fid, "reg": f"font {fid} {fontbuild.hexfont(rec)}", "cases": [c], "aat": False,
+                       "alphabet": [chr(x) for x in letters], "digits": [chr(x) for x in digits],
+                       "synthetic": True, "profile": "fraction", "recipe": rec, "has_reverse": False})
+    root = os.path.join(vlib.REPO, "tests", "fonts")
+    k = 0
+    for dp, dn, fn in sorted(os.walk(root)):
+        for f in sorted(fn):
+            p = os.path.join(dp, f)
+            try:
+                data = open(p, "rb").read()
+            except OSError:
+                continue
+            if data[:4] == b"ttcf" or not (b"frac" in data or (b"numr" in data and b"dnom" in data)):
+                continue
+            tabs = sfnt_tables(p)
+            if "GSUB" not in tabs or "morx" in tabs:
+                continue
+            fid = f"{prefix}f{k}"; k += 1
+            c = SynthCase()
+            c.name, c.font, c.index, c.text = fid, p, 0, ""
+            c.dir, c.script, c.lang, c.flags, c.level, c.feats = None, "Latn", None, 0, 0, []
+            c.pre, c.post, c.extra, c.opts = "", "", [], ""
+            groups.append({"fid": fid, "reg": f"fontfile {fid} {p} 0", "cases": [c], "aat": False, "alphabet": ["a", "b", "x"],
+                           "digits": list("01234"), "synthetic": False, "has_reverse": gsub_has_reverse(data)})
+    return groups
+
+
+def gsub_has_reverse(data):
+    """does the font's GSUB contain a ReverseChainSingleSubst lookup (type 8, also behind an extension)?"""
+    try:
+        n = struct.unpack(">H", data[4:6])[0]
+        off = None
+        for i in range(n):
+            if data[12 + 16 * i:16 + 16 * i] == b"GSUB":
+                off = struct.unpack(">I", data[20 + 16 * i:24 + 16 * i])[0]
+        if off is None:
+            return False
+        g = data[off:]
+        u16 = lambda b, o: struct.unpack(">H", b[o:o + 2])[0]
+        L = g[u16(g, 8):]
+        for i in range(u16(L, 0)):
+            lk = L[u16(L, 2 + 2 * i):]
+            t = u16(lk, 0)
+            if t == 8:
+                return True
+            if t == 7 and u16(lk, 4) > 0 and u16(lk[u16(lk, 6):], 2) == 8:
+                return True
+    except Exception:
+        pass
+    return False
+
+
+def make_fraction_shaping(r, g, flags, dirs=("l", "r", "l", "r", "t", "b"), levels=(0, 1)):
+    """texts built from digit runs, U+2044, letters and spaces with at least one slash"""
+    toks = []
+    for _ in range(r.range(2, 6)):
+        k = r.below(8)
+        if k < 3: toks.append("".join(r.choice(g["digits"]) for _ in range(r.range(1, 2))))
+        elif k < 5: toks.append(chr(FRACTION_SLASH))
+        elif k < 7: toks.append(r.choice(g["alphabet"]))
+        else: toks.append(" ")
+    if chr(FRACTION_SLASH) not in toks:
+        toks.insert(r.below(len(toks) + 1), chr(FRACTION_SLASH))
+    s = Shaping()
+    s.g = g
+    s.case = g["cases"][0]
+    s.text = "".join(toks)
+    s.clusters = rand_clusters(r, len(s.text), False)
+    s.req_dir = r.choice(dirs)
+    s.dir = s.req_dir
+    s.script = s.case.script
+    s.flags = flags | r.choice([0, 3, 3, 3])
+    s.level = r.choice(levels)
+    s.extra = []
+    s.pre, s.post = "", ""
+    s.subset = None
+    s.line = None
+    return s
+
+
+def fraction_known_class(s, kind="break"):
+    if s.g.get("synthetic"):
+        return "reversed" if shaped_reversed(s) else None
+    return known_class(s, kind)
